@@ -691,6 +691,16 @@ func runParent(pd *PropDef, tier string, seed uint64, n int, budget time.Duratio
 	}
 	fmt.Printf("%s %s: runs=%d distinct_nontrivial=%d steps=%d wall=%.1fs violations=%d aborted=%v probe_zero=%v lin=%v\n",
 		pd.ID, tier, agg.Runs, len(distinct), agg.Steps, wall, len(confirmed), agg.Aborted, probeZero, agg.Lin)
+	if len(confirmed) > 0 {
+		if len(confirmed) > 12 {
+			confirmed = confirmed[:12]
+		}
+		for _, v := range confirmed {
+			fmt.Printf("VIOLATION property=%s replay=%s\n", pd.ID, v.Replay)
+			fmt.Printf("  rule=%s %s\n", v.Rule, firstLine(v.Detail))
+		}
+		return 1
+	}
 	if len(agg.DetMismatch) > 0 {
 		fmt.Fprintf(os.Stderr, "simulator nondeterminism: %v\n", agg.DetMismatch)
 		return 2
@@ -702,16 +712,6 @@ func runParent(pd *PropDef, tier string, seed uint64, n int, budget time.Duratio
 	if trouble != "" {
 		fmt.Fprintf(os.Stderr, "trouble: %s\n", trouble)
 		return 2
-	}
-	if len(confirmed) > 0 {
-		if len(confirmed) > 12 {
-			confirmed = confirmed[:12]
-		}
-		for _, v := range confirmed {
-			fmt.Printf("VIOLATION property=%s replay=%s\n", pd.ID, v.Replay)
-			fmt.Printf("  rule=%s %s\n", v.Rule, firstLine(v.Detail))
-		}
-		return 1
 	}
 	return 0
 }
@@ -744,7 +744,7 @@ var expectedProbes = map[string][]string{
 	"C03": {"grows", "shrinks", "cas_fail", "cond_wait", "chained_buckets"},
 	"C04": {"grows", "shrinks", "mutex_block", "cond_wait", "chained_buckets"},
 	"C02": {"ticks_sent", "cond_wait"},
-	"C05": {"racer_keys", "chain_keys"},
+	"C05": {"racer_keys", "chain_keys", "swap_keys"},
 	"C06": {"reports", "ticks_sent"},
 	"C07": {"ranges", "ranges_overlapped", "ranges_quiet"},
 	"C08": {"grows", "shrinks"},
